@@ -740,6 +740,14 @@ func genSeq(rt *rapid.T, c ctx, n int) seq {
 
 // ---------------------------------------------------------------- top-level generators
 
+// genBind: one case in four runs under bound printer control variables.
+func genBind(rt *rapid.T) int {
+	if rapid.IntRange(0, 3).Draw(rt, "bound") != 0 {
+		return 0
+	}
+	return rapid.IntRange(1, len(printerBinds)-1).Draw(rt, "bind")
+}
+
 func genCompose(rt *rapid.T) Case {
 	n := rapid.IntRange(1, 4).Draw(rt, "items")
 	s := genSeq(rt, ctx{own: true, caret: true}, n)
@@ -756,7 +764,7 @@ func genCompose(rt *rapid.T) Case {
 		ctrl += p.ctrl
 		args = append(args, p.args(rt)...)
 	}
-	return Case{Ctrl: ctrl, Args: args}
+	return Case{Ctrl: ctrl, Args: args, Bind: genBind(rt)}
 }
 
 func genInteger(rt *rapid.T) Case {
@@ -765,7 +773,7 @@ func genInteger(rt *rapid.T) Case {
 	if rapid.IntRange(0, 3).Draw(rt, "framed") == 0 {
 		ctrl = "[" + ctrl + "]"
 	}
-	return Case{Ctrl: ctrl, Args: p.args(rt)}
+	return Case{Ctrl: ctrl, Args: p.args(rt), Bind: genBind(rt)}
 }
 
 // genEnglishInt favours numbers whose spelling exercises the group logic: powers of ten and their
